@@ -172,7 +172,13 @@ class _MemoryFile(io.RawIOBase):
         # NOTE(@althonos): allows passing both Seek.set and os.SEEK_SET
         with self._seek_lock():
             self.on_access()
-            return self._bytes_io.seek(pos, int(whence))
+            _whence = int(whence)
+            if _whence in (os.SEEK_CUR, os.SEEK_END):
+                # BytesIO silently clamps a negative target to 0; files reject it
+                base = self.pos if _whence == os.SEEK_CUR else self._dir_entry.size
+                if base + pos < 0:
+                    raise ValueError("negative seek position {}".format(base + pos))
+            return self._bytes_io.seek(pos, _whence)
 
     def tell(self):
         # type: () -> int
